@@ -64,6 +64,8 @@ Lemma balanced_wrap i b l : balanced l -> balanced (EOpen i b :: l ++ [EClose i 
 Proof.
   intros H st. simpl. rewrite bal_app, H. simpl. rewrite Z.eqb_refl. destruct b; reflexivity.
 Qed.
+Lemma balanced_own_border i : balanced (own_border i).
+Proof. unfold own_border. destruct (is_cell (knd i) && col i); [apply balanced_nil|apply balanced_paint_ev]. Qed.
 Lemma balanced_if (c : bool) l : balanced l -> balanced (if c then l else []).
 Proof. destruct c; [auto|intros; apply balanced_nil]. Qed.
 
@@ -109,7 +111,7 @@ Proof.
       rewrite paint_ctx_decomp by exact I.
       set (c := PC i kids neg zero pos_ bl fl bc z).
       assert (Hin : balanced (ctx_inner c)).
-      { unfold ctx_inner. apply balanced_app; [unfold ctx_own_bg; apply balanced_if; do 2 apply balanced_cons_paint; apply balanced_nil|].
+      { unfold ctx_inner. apply balanced_app; [unfold ctx_own_bg; apply balanced_if; apply balanced_cons_paint; apply balanced_own_border|].
         change (EOpen (pid c) BInner :: ctx_clip c ++ ctx_body c ++ EClose (pid c) BInner :: ctx_outlines c)
           with ((EOpen (pid c) BInner :: (ctx_clip c ++ ctx_body c) ++ [EClose (pid c) BInner]) ++ ctx_outlines c) ||
         replace (EOpen (pid c) BInner :: ctx_clip c ++ ctx_body c ++ EClose (pid c) BInner :: ctx_outlines c)
@@ -213,6 +215,7 @@ Ltac pick :=
 Ltac inc :=
   repeat match goal with
   | |- incl (ev_ids (_ ++ _)) _ => rewrite ev_ids_app; apply incl_app
+  | |- incl (ev_ids (own_border _)) _ => unfold own_border
   | |- incl (ev_ids (if ?c then _ else _)) _ => destruct c
   | |- incl (ev_ids (?e :: ?l)) _ =>
       change (ev_ids (e :: l)) with (event_id e :: ev_ids l); apply incl_cons; [simpl; now left|]
@@ -340,7 +343,7 @@ Proof.
     pose proof (paint_balanced c MCtx) as B. change (paint MCtx c) with (paint_ctx c) in B.
     (* direct argument: ctx_inner is built from balanced pieces *)
     clear D D'. unfold ctx_inner.
-    apply balanced_app; [unfold ctx_own_bg; apply balanced_if; do 2 apply balanced_cons_paint; apply balanced_nil|].
+    apply balanced_app; [unfold ctx_own_bg; apply balanced_if; apply balanced_cons_paint; apply balanced_own_border|].
     replace (EOpen (pid c) BInner :: ctx_clip c ++ ctx_body c ++ EClose (pid c) BInner :: ctx_outlines c)
       with ((EOpen (pid c) BInner :: (ctx_clip c ++ ctx_body c) ++ [EClose (pid c) BInner]) ++ ctx_outlines c)
       by (simpl; rewrite <- !app_assoc; reflexivity).
@@ -512,6 +515,15 @@ Proof.
   assert (Hi : pinfo c = binfo b) by apply pinfo_from_box.
   assert (Hid : pid c = bid (binfo b)) by (unfold pid; now rewrite Hi).
   split.
-  - unfold ctx_own_bg. rewrite Hi, Hid. destruct K as [-> | ->]; reflexivity.
+  - unfold ctx_own_bg, own_border. rewrite Hi, Hid. destruct K as [-> | ->]; reflexivity.
   - unfold ctx_inner. now rewrite Hid.
+Qed.
+
+Lemma context_own_background b :
+  point2_class (knd (binfo b)) = true ->
+  ctx_own_bg (from_box b) =
+  EPaint (bid (binfo b)) LBg ::
+  (if is_cell (knd (binfo b)) && col (binfo b) then [] else [EPaint (bid (binfo b)) LBorder]).
+Proof.
+  intros K. unfold ctx_own_bg, own_border, pid. rewrite pinfo_from_box, K. reflexivity.
 Qed.
